@@ -487,6 +487,11 @@ pub fn eval_c15(st: &State) -> Eval {
             for f in 0..nf {
                 e.transitions += 1;
                 let fv = c.face_vertices(f);
+                if fv.len() >= 256 {
+                    e.count("faces_with_256+_vertices", 1);
+                } else if fv.len() >= 17 {
+                    e.count("faces_with_17..255_vertices", 1);
+                }
                 if fv.len() != c.face_vertex_count(f) {
                     e.issue("face_vertex_count", &case, format!("cell {} face {}", i, f), rp());
                 }
